@@ -132,6 +132,20 @@ theorem strAlloc_room (len : Nat) : len + 1 ≤ strAlloc len ∧ strAlloc len % 
 theorem indexListBytes_eq (n : Nat) : indexListBytes n = align4 (2 * n) := by
   unfold indexListBytes align4; omega
 
+/-- a size variable of at least 32 bits holds every aligned 32-bit size unchanged -/
+theorem dirIndexRequired_eq (bits packed : Nat) (hb : 32 ≤ bits) (hp : packed + 3 < 2 ^ 32) :
+    dirIndexRequired bits packed = align4 packed := by
+  have h32 : 2 ^ 32 ≤ 2 ^ bits := Nat.pow_le_pow_right (by decide) hb
+  have ha := align4_lt packed
+  unfold dirIndexRequired storeIn
+  rw [Nat.mod_eq_of_lt (by omega : packed < 2 ^ bits), Nat.mod_eq_of_lt (by omega : align4 packed < 2 ^ bits)]
+
+theorem dirIndexPackOk_of_wide (bits packed : Nat) (hb : 32 ≤ bits) (hp : packed + 3 < 2 ^ 32) :
+    dirIndexPackOk bits packed = true := by
+  unfold dirIndexPackOk
+  rw [dirIndexRequired_eq bits packed hb hp]
+  exact decide_eq_true (align4_ge packed)
+
 theorem sz_values :
     szSimple = 4 ∧ szArray = 8 ∧ szIface = 4 ∧ szParam = 4 ∧ szError = 4 ∧ szArg = 16 ∧ szSignature = 8 ∧
     szField = 16 ∧ szCallback = 12 ∧ szFunction = 20 ∧ szProperty = 16 ∧ szSignal = 16 ∧ szVFunc = 20 ∧
